@@ -8,15 +8,16 @@ also passes the existing test suite is recorded in `suite` where it was establis
 M = []
 
 
-def m(id, prop, expect, file, old, new, note="", suite="unknown"):
-    M.append({"id": id, "prop": prop, "expect": expect, "file": file, "old": old, "new": new, "note": note, "suite": suite})
+def m(id, prop, expect, file, old, new, note="", suite="unknown", silent=False):
+    """silent=True: a behaviour-preserving edit; the check must stay quiet on it (false-alarm control)."""
+    M.append({"id": id, "prop": prop, "expect": expect, "file": file, "old": old, "new": new, "note": note, "suite": suite, "silent": silent})
 
 
 EX = "shuttle-engine/src/runtime/execution.rs"
 # ---- C01 ------------------------------------------------------------------------------------------------
 m("C01-push-only-on-change", "C01", "C01.R1", EX,
-  "        if let ScheduledTask::Some(tid) = self.current_task {\n            CurrentSchedule::push_task(tid);\n        }",
-  "        let prev = self.current_task;\n        if let ScheduledTask::Some(tid) = self.current_task {\n            if prev != self.next_task {\n                CurrentSchedule::push_task(tid);\n            }\n        }",
+  "        self.current_task = self.next_task.take();\n\n        if let ScheduledTask::Some(tid) = self.current_task {\n            CurrentSchedule::push_task(tid);\n        }",
+  "        let prev = self.current_task;\n        self.current_task = self.next_task.take();\n\n        if let ScheduledTask::Some(tid) = self.current_task {\n            if prev != self.current_task {\n                CurrentSchedule::push_task(tid);\n            }\n        }",
   "record a task step only when the chosen task differs")
 m("C01-serve-then-record", "C01", "C01.R2", EX,
   "            CurrentSchedule::push_random();\n            state.scheduler.borrow_mut().next_u64()",
@@ -223,3 +224,49 @@ m("C20-stdrng-original", "C20", "C20.R4", "wrappers/shuttle_rand_0.8/shuttle_ran
   "    impl RngCore for StdRng {\n        #[inline(always)]\n        fn next_u32(&mut self) -> u32 {\n            self.0.next_u32()\n        }\n\n        #[inline(always)]\n        fn next_u64(&mut self) -> u64 {\n            self.0.next_u64()\n        }",
   "    impl RngCore for StdRng {\n        #[inline(always)]\n        fn next_u32(&mut self) -> u32 {\n            self.0.next_u32()\n        }\n\n        #[inline(always)]\n        fn next_u64(&mut self) -> u64 {\n            rand_orig::RngCore::next_u64(&mut rand_orig::thread_rng())\n        }",
   "StdRng draws from the original thread_rng")
+# ---- added with the later rules (C09, C11, C13.R5, C16.R4, C19.R7, C04.R2b) -------------------------------------
+DFS = "shuttle-schedulers/src/dfs.rs"
+m("C09-backtrack-same-choice", "C09", "backtrack-takes-successor", DFS,
+  "                let next_idx = runnable.iter().position(|t| t.id() == last_choice).unwrap() + 1;",
+  "                let next_idx = (runnable.iter().position(|t| t.id() == last_choice).unwrap() + 2).min(runnable.len() - 1);",
+  "a backtracking step skips a sibling")
+m("C09-no-truncate", "C09", "truncate-before-push", DFS,
+  "                self.levels.drain(self.steps..);\n                self.levels.push((next, next_idx == runnable.len() - 1));",
+  "                self.levels[self.steps] = (next, next_idx == runnable.len() - 1);",
+  "deeper levels survive a backtracking step")
+m("C09-stop-without-iterations-test", "C09", "stops-when-exhausted", DFS,
+  "        if self.iterations > 0 && !self.has_more_choices(0) {", "        if !self.has_more_choices(1.min(self.levels.len())) {",
+  "exhaustion test ignores level 0")
+m("C09-seed-from-os", "C09", "constant-seed", DFS,
+  "        let data_source = FixedDataSource::initialize(DFS_RANDOM_SEED);", "        let data_source = FixedDataSource::initialize(rand::RngCore::next_u64(&mut rand::rngs::OsRng) | DFS_RANDOM_SEED);",
+  "DFS data stream differs from run to run")
+m("C09-seed-from-arg", "C09", "constant-seed", DFS,
+  "        let data_source = FixedDataSource::initialize(DFS_RANDOM_SEED);", "        let data_source = FixedDataSource::initialize(max_iterations.map(|m| m as u64).unwrap_or(DFS_RANDOM_SEED));",
+  "seed is a function of the configuration only: still a fixed stream (must NOT fire)", silent=True)
+PCT = "shuttle-schedulers/src/pct.rs"
+m("C11-depth-not-minus-one", "C11", "count-at-most-depth-minus-1", PCT,
+  "            let num_points = std::cmp::min(self.max_depth - 1, self.max_steps - 1);", "            let num_points = std::cmp::min(self.max_depth, self.max_steps - 1);",
+  "depth change points instead of depth-1")
+m("C11-iterations-twice", "C11", "iterations-once-per-execution", PCT,
+  "            self.next_priority = self.priorities.len();\n", "            self.next_priority = self.priorities.len();\n            self.iterations += 1;\n",
+  "iterations counted twice after the first execution")
+m("C13-random-budget-off", "C13", "C13.R5", "shuttle-schedulers/src/random.rs",
+  "        if self.iterations >= self.max_iterations {\n            self.current_seed.clear();\n            None\n        } else {\n            self.iterations += 1;",
+  "        if self.iterations >= self.max_iterations {\n            self.current_seed.clear();\n            None\n        } else {\n            self.iterations += 1 + (self.iterations & 1);",
+  "iterations advance by two every other execution", suite="unknown")
+SER = "shuttle-engine/src/scheduler/serialization.rs"
+m("C16-writer-stride", "C16", "C16.R4", SER,
+  "                offset += 1 + task_id_bits;", "                offset += task_id_bits + 2;", "writer leaves a gap bit after each task id")
+m("C16-reader-range", "C16", "C16.R4", SER,
+  "            let start = offset.checked_add(1)?;\n            let end = start.checked_add(task_id_bits)?;",
+  "            let start = offset.checked_add(1)?;\n            let end = start.checked_add(task_id_bits)?.checked_add(0)?;\n            let start = start.checked_add(0)?;",
+  "behaviour-preserving rewrite of the reader (must NOT fire)", suite="pass", silent=True)
+NOTIFY = "wrappers/tokio/impls/tokio/inner/src/sync/notify.rs"
+m("C19-notify-loses-permit", "C19", "notify_one-stores-permit", NOTIFY,
+  "            // No pending waiters, so just record the fact that a notify is pending\n            state.pending = true;",
+  "            // No pending waiters, so just record the fact that a notify is pending\n            state.pending = !state.waiters.is_empty();",
+  "notify_one with only un-enabled waiters registered loses the permit")
+m("C04-holder-before-acquire", "C04", "holder-after-acquire", "shuttle-std/src/sync/mutex.rs",
+  "        let mut state = self.state.borrow_mut();\n        trace!(holder=?state.holder, semaphore=?self.semaphore, \"trying to acquire mutex {:p}\", self);\n        drop(state);",
+  "        let mut state = self.state.borrow_mut();\n        trace!(holder=?state.holder, semaphore=?self.semaphore, \"trying to acquire mutex {:p}\", self);\n        if state.holder.is_none() {\n            state.holder = Some(me);\n        }\n        drop(state);",
+  "try_lock records itself as holder before it owns the permit")
